@@ -18,7 +18,14 @@ impl Embedded {
 	fn run_inner(&self, args: &[&str], seed: u64) -> Result<(i32, String), String> {
 		let bin = other_binary(&self.feature)?;
 		let out = Command::new(&bin).args(args).env("VERIF_SEED", seed.to_string()).env("VERIF_WIDE", "1").output().map_err(|e| format!("cannot run {bin}: {e}"))?;
-		let code = out.status.code().unwrap_or(-1);
+		use std::os::unix::process::ExitStatusExt;
+		// killed by SIGILL/SIGABRT/SIGBUS/SIGFPE/SIGSEGV: the feature build crashed (code 101); SIGKILL and
+		// everything else (OOM killer, operator) stays infrastructure
+		let code = match (out.status.code(), out.status.signal()) {
+			(Some(c), _) => c,
+			(None, Some(4 | 6 | 7 | 8 | 11)) => 101,
+			_ => -1,
+		};
 		let mut text = String::from_utf8_lossy(&out.stdout).to_string();
 		if code != 0 && code != 1 {
 			text.push_str(&String::from_utf8_lossy(&out.stderr));
@@ -71,6 +78,17 @@ impl SubCheck for Embedded {
 				}
 				Some(Violation { check: self.name(), failure: f, case: serde_json::json!({"feature": self.feature, "inner": self.inner, "inner_replay": replay}) })
 			}
+			101 => {
+				// the build with the feature crashed (abort, segfault, allocator corruption report) while the same
+				// check runs to completion in the default build: the feature changed more than capacity/precision
+				let last: String = text.lines().rev().filter(|l| !l.trim().is_empty()).take(2).collect::<Vec<_>>().join(" | ");
+				let f = Failure::new(format!("C20:{}:{}:crash", self.feature, self.inner), format!("the build with feature(s) {} crashed while running the definitional check {}: {}", self.feature, self.inner, last.chars().take(400).collect::<String>()));
+				if cfg.is_known(&f.sig) {
+					stats.excluded_known += 1;
+					return None;
+				}
+				Some(Violation { check: self.name(), failure: f, case: serde_json::json!({"feature": self.feature, "inner": self.inner, "inner_replay": "", "crash": true, "seed": cfg.seed, "tier": self.tier.name()}) })
+			}
 			_ => {
 				eprintln!("INFRASTRUCTURE: inner check {} in build {} exited with {}: {}", self.inner, self.feature, code, text.chars().take(600).collect::<String>());
 				std::process::exit(2);
@@ -80,6 +98,16 @@ impl SubCheck for Embedded {
 	fn replay(&self, case: &Value, stats: &mut Stats) -> CaseResult {
 		stats.evals += 1;
 		let inner_replay = case["inner_replay"].as_str().unwrap_or("");
+		if case["crash"].as_bool() == Some(true) {
+			// a crash has no inner replay file: re-run the inner check with the recorded seed
+			let seed = case["seed"].as_u64().unwrap_or(0);
+			let tier = case["tier"].as_str().unwrap_or("quick").to_string();
+			let (code, text) = self.run_inner(&["run", self.inner, &tier, "--no-evidence"], seed).map_err(|e| Failure::new("infrastructure", e))?;
+			return match code {
+				0 => Ok(()),
+				_ => Err(Failure::new(format!("C20:{}:{}:crash", self.feature, self.inner), text.chars().rev().take(400).collect::<String>().chars().rev().collect::<String>())),
+			};
+		}
 		let (code, text) = self.run_inner(&["replay", self.inner, inner_replay], 0).map_err(|e| Failure::new("infrastructure", e))?;
 		match code {
 			0 => Ok(()),
